@@ -99,6 +99,17 @@ def run_direct_impl(ops):
         closed = []
         for n, bc in list(c.clients.items()):
             seen_bcs[id(bc)] = (n, bc)
+        try:
+            ans = None
+            ans = _apply_op(c, op, k, seen_bcs, closed, KafkaCodec, BrokerMetadata, BrokerResponseError)
+        except Exception as e:  # the real code crashed: an observation, not a harness error
+            ans = ["raise " + type(e).__name__]
+        out.append((ans, CC.dump_real(c), closed))
+    return out
+
+
+def _apply_op(c, op, k, seen_bcs, closed, KafkaCodec, BrokerMetadata, BrokerResponseError):
+    if True:
         if k == "merge":
             body = W.metadata_response(op["brokers"], [(n, e, [(pe, p, l, [], []) for pe, p, l in ps]) for n, e, ps in op["topics"]])
             brokers, topics = KafkaCodec.decode_metadata_response(b"\x00\x00\x00\x01" + body)
@@ -137,8 +148,7 @@ def run_direct_impl(ops):
             c._group_to_coordinator[op["group"]] = bm
             c._update_brokers([bm])
             ans = ["ok"]
-        out.append((ans, CC.dump_real(c), closed))
-    return out
+    return ans
 
 
 def six(dump):
@@ -154,10 +164,17 @@ def examined(op, ans):
     """responses _handle_responses looked at: all, or up to and including the raising one"""
     if ans == ["ok"]:
         return op["resps"]
+    if ans == ["raise TypeError"]:
+        raised = None
+    else:
+        try:
+            raised = int(ans[0].split(" ")[1])
+        except (ValueError, IndexError):
+            return []
     out = []
     for t, e in op["resps"]:
         out.append((t, e))
-        if e != 0 and (op["foe"] or ans == ["raise TypeError"]):
+        if e != 0 and ((raised is None and e in (14, 15, 16)) or e == raised):
             break
     return out
 
@@ -187,6 +204,9 @@ def check_direct(ctx, res, histories, label="direct"):
                 lines.append("mon-invalidate %s %s %s" % (op["group"] or "-", CC.fmt_keys(ex), cur6))
                 expect.append(["ok"]); meta.append((hi, oi, "mon-invalidate"))
                 res.count("handle=" + ans[0].split(" ")[0])
+                if not op["foe"] and op["group"] is not None and ans != ["ok"] and len(res.monitor_failures) < 20:
+                    # the statement of C08_fail_on_error_false_never_raises, on the implementation
+                    res.monitor_failures.append({"what": "_handle_responses raised %s although fail_on_error=False" % ans, "scenario": {"driver": label, "ops": ops[: oi + 1]}, "tags": ["c08-fail-on-error-false-raised"]})
             res.count("op=" + op["op"])
             prev6 = cur6
         res.evaluations += 1
@@ -194,16 +214,25 @@ def check_direct(ctx, res, histories, label="direct"):
             res.nontrivial(ops)
         res.sample({"driver": label, "ops": ops[:4], "last_dump": impl[-1][1] if impl else None}, limit=2)
     got = ctx.model("client", lines)
-    bad_hist = set()
+    bad_hist, bad_mon = set(), set()
     for (hi, oi, kind), l, e, g in zip(meta, lines, expect, got):
-        if e == g or hi in bad_hist:
+        if e == g:
             continue
-        bad_hist.add(hi)
         ops = histories[hi]
         if kind.startswith("mon-"):
-            res.monitor_failures.append({"what": "C08 monitor %s failed on the real client's cache: %s" % (kind, g), "scenario": {"driver": label, "ops": ops[: oi + 1]}, "request": l, "tags": ["c08-" + kind]})
-        else:
-            res.disagreements.append({"component": "client-cache", "driver": label, "scenario": {"driver": label, "ops": shrink_direct(ctx, ops[: oi + 1])}, "at": oi, "impl": e, "model": g})
+            # the monitors judge the IMPLEMENTATION's dumps: evaluated whether or not the model agrees
+            if hi in bad_mon:
+                continue
+            bad_mon.add(hi)
+            if len(res.monitor_failures) < 20:
+                res.monitor_failures.append({"what": "C08 monitor %s failed on the real client's cache: %s" % (kind, g), "scenario": {"driver": label, "ops": ops[: oi + 1]}, "request": l, "tags": ["c08-" + kind]})
+        elif hi not in bad_hist:
+            bad_hist.add(hi)
+            sc = shrink_direct(ctx, ops[: oi + 1]) if len(res.disagreements) < 2 else ops[: oi + 1]
+            if len(res.disagreements) < 20:
+                res.disagreements.append({"component": "client-cache", "driver": label, "scenario": {"driver": label, "ops": sc}, "at": oi, "impl": e, "model": g})
+            else:
+                res.count("more_disagreements")
     res.traces_validated += len(histories)
 
 
